@@ -38,6 +38,8 @@ def pattern_label(p):
         mx += f' ms{p["max_src"]}'
     if p.get('max_tgt') is not None:
         mx += f' mt{p["max_tgt"]}'
+    if p.get('order'):
+        mx += f' {p["order"]}'
     return f'[{f(p["src_override"])}|{f(p["tgt_override"])}{mx}]'
 
 
@@ -86,10 +88,14 @@ def default_patterns(s, rnd=None, n_override=3, with_max=False):
     rnd = rnd or random.Random(zlib.crc32(settings_label(s).encode()) & 0xffff)
     so = _sub_lists(s['src'][0])
     to = _sub_lists(s['tgt'][-1])
-    for o in so[:n_override]:
+    for k_o, o in enumerate(so[:n_override]):
         pats.append(pattern(ns, nt, src_override={0: o}))
-    for o in to[:n_override]:
+        if k_o == 1 and len(o) > 1:
+            pats[-1]['order'] = 'desc'   # the list is handed to the library in descending order
+    for k_o, o in enumerate(to[:n_override]):
         pats.append(pattern(ns, nt, tgt_override={nt-1: o}))
+        if k_o != 1 and len(o) > 1:
+            pats[-1]['order'] = 'desc' if k_o == 0 else 'mixed'
     if so and to:
         pats.append(pattern(ns, nt, src_override={0: rnd.choice(so)}, tgt_override={nt-1: rnd.choice(to)}))
         if ns > 1:
@@ -112,6 +118,16 @@ def default_patterns(s, rnd=None, n_override=3, with_max=False):
     return out
 
 
+def _ordered(v, order):
+    """an override list as the caller may write it: ascending (default), descending, or largest first then ascending"""
+    v = sorted(v)
+    if order == 'desc':
+        return v[::-1]
+    if order == 'mixed' and len(v) > 1:
+        return [v[-1]]+v[:-1]
+    return v
+
+
 def to_settings(s):
     """-> real MatrixGenSettings and the list of real NodeExistence objects (same order as s['patterns'])"""
     from adsg_core.optimization.assign_enc.matrix import Node, NodeExistence, NodeExistencePatterns, MatrixGenSettings
@@ -127,20 +143,22 @@ def to_settings(s):
 
         def split(ov, n):
             mask = [ov.get(i) != [0] for i in range(n)]
-            rest = {k: list(v) for k, v in ov.items() if v != [0]}
+            rest = {k: _ordered(v, p_order[0]) for k, v in ov.items() if v != [0]}
             key = repr(sorted(rest.items()))
             if rest and key not in shared:
                 shared[key] = rest
             return (mask if not all(mask) else None), (shared[key] if rest else None)
+        p_order = [None]
         for p in s['patterns']:
+            p_order[0] = p.get('order')
             sm, so = split(p['src_override'], len(src))
             tm, to = split(p['tgt_override'], len(tgt))
             exist.append(NodeExistence(src_exists=sm, tgt_exists=tm, src_n_conn_override=so, tgt_n_conn_override=to,
                                        max_src_conn_override=p.get('max_src'), max_tgt_conn_override=p.get('max_tgt')))
     else:
         for p in s['patterns']:
-            exist.append(NodeExistence(src_n_conn_override={k: list(v) for k, v in p['src_override'].items()} or None,
-                                       tgt_n_conn_override={k: list(v) for k, v in p['tgt_override'].items()} or None,
+            exist.append(NodeExistence(src_n_conn_override={k: _ordered(v, p.get('order')) for k, v in p['src_override'].items()} or None,
+                                       tgt_n_conn_override={k: _ordered(v, p.get('order')) for k, v in p['tgt_override'].items()} or None,
                                        max_src_conn_override=p.get('max_src'), max_tgt_conn_override=p.get('max_tgt')))
     settings = MatrixGenSettings(src=src, tgt=tgt, excluded=[tuple(e) for e in s['excluded']] or None,
                                  existence=NodeExistencePatterns(patterns=exist), max_conn_parallel=s.get('mcp'))
